@@ -35,13 +35,13 @@ class TlcResult:
 
 
 def workdir(prop):
-    d = os.path.join(ROOT, '.work', prop)
+    d = os.path.join(os.environ.get('VERIF_WORK') or os.path.join(ROOT, '.work'), prop)
     os.makedirs(d, exist_ok=True)
     return d
 
 
 def clean(prop):
-    d = os.path.join(ROOT, '.work', prop)
+    d = os.path.join(os.environ.get('VERIF_WORK') or os.path.join(ROOT, '.work'), prop)
     shutil.rmtree(d, ignore_errors=True)
     os.makedirs(d, exist_ok=True)
     return d
